@@ -413,6 +413,7 @@ structure BlockObj where
                                   -- failing one; none = it returns before assigning (corrupt count field)
   buildOk : Bool                  -- BuildTxList() returned nil
   rawCount : Nat := 0             -- the count field of Raw as vlenWire reads it (0: corrupt / absent)
+  rawOffset : Nat := 0            -- the width of that count field (vlenWire's second result; 0: corrupt / absent)
   -- assigned by CheckBlock
   height : Nat
   mtp : Nat
@@ -420,6 +421,10 @@ structure BlockObj where
   verifyFlags : Nat
   txCount : Nat := 0              -- bl.TxCount: rawCount for NewBlock(whole serialisation); 0 for a header-first object
                                   -- (body attached by `bl.Raw = …`); BuildTxList's fallback assigns it when it is 0
+  -- the rest of the object state BuildTxListExt writes (audit 2: they were outside the record)
+  txOffset : Nat := 0             -- bl.TxOffset: assigned together with TxCount by the fallback (+80 when the count is sound)
+  weight : Nat := 0               -- bl.BlockWeight: assigned whenever BuildTxList got as far as `bl.Txs = make(…)`
+  totalInputs : Nat := 0          -- bl.TotalInputs: BuildTxList ADDS len(tx.TxIn) of every transaction it parsed (never reset)
 
 /-- PreCheckBlock returned after `bl.Height = prevblk.Height + 1` -/
 def PreErr.setsHeight : PreErr → Bool
@@ -457,13 +462,29 @@ def postInOf (bl : BlockObj) : PostIn :=
     mtp := bl.mtp, time := bl.time, merkleRoot := bl.merkleRoot, txs := bl.txs.getD (bl.build.getD []),
     cntOnEntry := bl.txCount }
 
+/-- PostCheckBlock called BuildTxList: `bl.Txs == nil` on entry and the length test passed -/
+def BlockObj.buildRan (bl : BlockObj) : Bool := bl.txs.isNone && decide (bl.rawLen ≥ postMinRawLen)
+
+/-- `bl.BlockWeight` as BuildTxListExt leaves it once `bl.Txs` was allocated and `txs` were parsed: for a complete
+    parse the weight PostCheckBlock holds against the limit (`builtWeight`); for a parse that stopped at a bad
+    transaction the base weight of the COUNT FIELD (the loop did not reach it) plus the transactions parsed so far -/
+def BlockObj.weightBuilt (bl : BlockObj) (txs : List Tx) : Nat :=
+  if bl.buildOk then builtWeight bl.txCount txs
+  else 4 * (80 + CompactSize.vlenSize (if buildTxListReadsCountAfterFallback then (if bl.txCount == 0 then bl.rawCount else bl.txCount) else bl.txCount))
+        + (txs.map (fun t => 3 * t.noWitSize + t.size)).sum
+
 /-- the block object as PostCheckBlock leaves it: `bl.Txs` is assigned by BuildTxList when it was nil and the size
     test passed (and then `bl.TxCount`, when it was 0, by BuildTxList's fallback: the count field of Raw);
     `bl.VerifyFlags` when ApplyBlockFlags was reached -/
 def afterPost (bl : BlockObj) (e : PostErr) (flags : Nat) : BlockObj :=
   { bl with txs := if bl.txs.isNone && decide (bl.rawLen ≥ postMinRawLen) then bl.build else bl.txs,
             verifyFlags := if e.setsFlags then flags else bl.verifyFlags,
-            txCount := if bl.txs.isNone && decide (bl.rawLen ≥ postMinRawLen) && bl.txCount == 0 then bl.rawCount else bl.txCount }
+            txCount := if bl.txs.isNone && decide (bl.rawLen ≥ postMinRawLen) && bl.txCount == 0 then bl.rawCount else bl.txCount,
+            txOffset := if bl.buildRan && bl.txCount == 0 then
+                          (if bl.rawCount == 0 || bl.rawOffset == 0 then bl.rawOffset else bl.rawOffset + 80)
+                        else bl.txOffset,
+            weight := if bl.buildRan then (match bl.build with | none => bl.weight | some txs => bl.weightBuilt txs) else bl.weight,
+            totalInputs := if bl.buildRan then bl.totalInputs + ((bl.build.getD []).map (·.ins.length)).sum else bl.totalInputs }
 
 structure CheckRes where
   dos : Bool
